@@ -6,7 +6,8 @@ from univers.version_constraint import VersionConstraint
 MODULES = ["Univers.Props.C10", "Univers.Props.Schemes"]
 LEVEL = "proof"
 # function-level tie (translator + agreement theorems): see runner step 3a
-TIE_THEOREMS = {"Univers.Vers.GenRangeNormalizeThm": ["Univers.Gen.LayerB.range_normalize_eq", "Univers.Gen.LayerB.range_from_versions_eq"], "Univers.Vers.GenRangeContainsThm": ["Univers.Gen.LayerB.range_contains_eq"]}
+TIE_THEOREMS = {"Univers.Vers.GenLayerBExact": ["Univers.Gen.LayerB.py_normalize_accepted_and_members"],
+                "Univers.Vers.GenRangeNormalizeThm": ["Univers.Gen.LayerB.range_normalize_eq", "Univers.Gen.LayerB.range_from_versions_eq"], "Univers.Vers.GenRangeContainsThm": ["Univers.Gen.LayerB.range_contains_eq"]}
 RULE = ("per scheme: seeded well-formed ranges (patterns accepted by the model's validation) x seeded lists of known versions "
         "(any order, with duplicates, with or without the range's own bound versions); the real range.normalize(known) and "
         "RangeClass.from_versions(list) against the Lean model on ranks, and the property's clauses evaluated on the real result: "
